@@ -525,6 +525,12 @@ class Emitter:
                     return '((((u128)%dULL)<<64)|(u128)%dULL)' % (hi, lo)
                 return '((%s)%dULL)' % (self.ct(rty), v)
             raise NotImplementedError("int const of type %r" % (ty,))
+        if k == 'fp' and getattr(self, 'cur_lift', False) and rty == ('double',):
+            v = c[1]
+            if v != v or v in (float('inf'), float('-inf')):
+                raise NotImplementedError("lift: non-finite double constant %r in %s" % (v, self.f.name))
+            num, den = float(v).as_integer_ratio()   # den is a power of two: v = num * 2^-k exactly
+            return '((LD){%dLL, %d, %d})' % (num, abs(num).bit_length(), -(den.bit_length() - 1))
         if k == 'fp':
             v = c[1]
             if v != v: return '(0.0/0.0)'
@@ -537,7 +543,8 @@ class Emitter:
                 if toplevel_init: return '{0}'
                 return '((%s){0})' % self.ct(ty)
             if rty[0] == 'ptr': return '((%s)0)' % self.ct(ty)
-            if rty[0] in ('double', 'float'): return '0.0'
+            if rty[0] in ('double', 'float'):
+                return '((LD){0, 0, 0})' if (getattr(self, 'cur_lift', False) and rty == ('double',)) else '0.0'
             return '((%s)0)' % self.ct(ty)
         if k == 'gref':
             nm = c[1]
@@ -698,14 +705,23 @@ class Emitter:
             cn = self.lit_typedef(r)
             emit_struct(cn)
 
+    def is_lifted(self, name):
+        return name in self.opts.get('lift', ())
+
+    def lct(self, ty, lifted):
+        if lifted and ty == ('double',): return 'LD'
+        return self.ct(ty)
+
     def proto(self, f):
-        args = ', '.join('%s %s' % (self.ct(t), 'a_' + san(n)) for t, n, info in f.params) or 'void'
+        lf = self.is_lifted(f.name)
+        args = ', '.join('%s %s' % (self.lct(t, lf), 'a_' + san(n)) for t, n, info in f.params) or 'void'
         if f.va: args += ', ...'
-        return '%s %s(%s)' % (self.ct(f.ret), self.gname(f.name), args)
+        return '%s %s(%s)' % (self.lct(f.ret, lf), self.gname(f.name), args)
 
     # ---- function emission
     def emit_func(self, f):
         self.f = f
+        self.cur_lift = self.is_lifted(f.name)
         self.vt = {}      # local name -> type
         self.vn = {}      # local name -> C name
         lines = []
@@ -735,6 +751,7 @@ class Emitter:
                     t = self.resolve(ins['tty'])
                     if t[0] == 'ptr' and t[1][0] not in ('func', 'void', 'opaque') and not (t[1][0] == 'int' and t[1][1] == 8):
                         self.newty[ins['v']] = ins['tty'][1]
+        f.blocks = self.layout_blocks(f, parsed)
         # declare vars
         # phi shadow handling
         blocks_phis = {bn: [i for i in parsed[bn] if i['op'] == 'phi'] for bn, _ in f.blocks}
@@ -751,10 +768,10 @@ class Emitter:
         for n, t in self.vt.items():
             if any(n == pn for _, pn, _ in f.params): continue
             if t[0] == 'void': continue
-            lines.append('  %s %s;' % (self.ct(t), self.vn[n]))
+            lines.append('  %s %s;' % (self.lct(t, self.cur_lift), self.vn[n]))
         for bn in blocks_phis:
             for ph in blocks_phis[bn]:
-                lines.append('  %s %s__in;' % (self.ct(ph['ty']), self.vn[ph['res']]))
+                lines.append('  %s %s__in;' % (self.lct(ph['ty'], self.cur_lift), self.vn[ph['res']]))
         lines.extend('  ' + a for a in self.allocas)
         # byval prologue
         for t, n, info in f.params:
@@ -764,6 +781,107 @@ class Emitter:
         lines.extend(body)
         lines.append('}')
         return lines
+
+    def layout_blocks(self, f, parsed):
+        """Reorder basic blocks so that every natural loop is contiguous with its latch last and every other jump is
+        forward. CBMC treats each textually backward goto as a loop and merges pending forward-jump states in program
+        order; an unstructured layout makes it merge states of different iterations and mis-count unwindings."""
+        names = [bn for bn, _ in f.blocks]
+        idx = {bn: i for i, bn in enumerate(names)}
+        succ = {}
+        for bn in names:
+            t = parsed[bn][-1] if parsed[bn] else None
+            ss = []
+            if t is not None:
+                if t['op'] == 'br':
+                    ss = [t['t']] + ([t['e']] if t['cond'] is not None else [])
+                elif t['op'] == 'switch':
+                    ss = [t['d']] + [cl for _, cl in t['cases']]
+            seen = set(); succ[bn] = [x for x in ss if not (x in seen or seen.add(x))]
+        entry = names[0]
+        # reverse post-order (iterative DFS)
+        order = []; state = {}
+        stack = [(entry, iter(succ[entry]))]; state[entry] = 1
+        while stack:
+            n, it = stack[-1]
+            for m in it:
+                if m not in state:
+                    state[m] = 1; stack.append((m, iter(succ[m]))); break
+            else:
+                order.append(n); stack.pop()
+        rpo = order[::-1]
+        reach = set(rpo)
+        pred = {n: [] for n in rpo}
+        for n in rpo:
+            for m in succ[n]: pred[m].append(n)
+        # dominators (Cooper-Harvey-Kennedy)
+        rnum = {n: i for i, n in enumerate(rpo)}
+        idom = {entry: entry}
+        changed = True
+        while changed:
+            changed = False
+            for n in rpo[1:]:
+                ps = [p for p in pred[n] if p in idom]
+                new = ps[0]
+                for p in ps[1:]:
+                    a, b = p, new
+                    while a != b:
+                        while rnum[a] > rnum[b]: a = idom[a]
+                        while rnum[b] > rnum[a]: b = idom[b]
+                    new = a
+                if idom.get(n) != new: idom[n] = new; changed = True
+        def dom(a, b):  # a dominates b
+            while True:
+                if a == b: return True
+                if b == entry: return False
+                b = idom[b]
+        loops = {}  # header -> set of nodes
+        for u in rpo:
+            for h in succ[u]:
+                if dom(h, u):
+                    body = loops.setdefault(h, {h})
+                    work = [u]
+                    while work:
+                        x = work.pop()
+                        if x in body: continue
+                        body.add(x); work.extend(pred[x])
+        if not loops:
+            return [(bn, dict(f.blocks)[bn]) for bn in rpo] + [(bn, bl) for bn, bl in f.blocks if bn not in reach]
+        def layout(nodes, header):
+            # maximal child loops strictly inside this region
+            kids = [h for h in loops if h in nodes and h != header and loops[h] <= nodes]
+            kids = [h for h in kids if not any(k != h and loops[h] < loops[k] for k in kids)]
+            rep = {}
+            for n in nodes: rep[n] = n
+            for h in kids:
+                for n in loops[h]: rep[n] = h
+            reps = sorted(set(rep.values()), key=lambda n: rnum[n])
+            indeg = {r: 0 for r in reps}; out = {r: set() for r in reps}
+            for u in nodes:
+                for v in succ[u]:
+                    if v not in nodes or v == header: continue
+                    ru, rv = rep[u], rep[v]
+                    if ru != rv and rv not in out[ru]:
+                        out[ru].add(rv); indeg[rv] += 1
+            res = []; ready = sorted([r for r in reps if indeg[r] == 0], key=lambda n: rnum[n])
+            done = set()
+            while ready:
+                r = ready.pop(0); done.add(r)
+                if r in kids: res.extend(layout(loops[r], r))
+                else: res.append(r)
+                for v in sorted(out[r], key=lambda n: rnum[n]):
+                    indeg[v] -= 1
+                    if indeg[v] == 0: ready.append(v)
+                ready.sort(key=lambda n: rnum[n])
+            for r in reps:   # irreducible remainder: keep RPO
+                if r not in done:
+                    if r in kids: res.extend(x for x in sorted(loops[r], key=lambda n: rnum[n]) if x not in res)
+                    else: res.append(r)
+            return res
+        final = layout(set(rpo), None)
+        assert final[0] == entry and len(final) == len(set(final)) == len(rpo), (f.name, len(final), len(rpo))
+        bd = dict(f.blocks)
+        return [(bn, bd[bn]) for bn in final] + [(bn, bl) for bn, bl in f.blocks if bn not in reach]
 
     def defvar(self, name, ty):
         self.vt[name] = ty
@@ -900,6 +1018,10 @@ class Emitter:
             if rty[0] == 'ptr' and rty[1][0] == 'func' and (p.peek()[0] in '%@' ):
                 fty = rty[1]; rty = fty[1]
             callee_tok = p.next()
+            if callee_tok == 'bitcast':
+                # call through a constant-expression cast of a known function: treat as a direct call
+                p.expect('('); parse_type(p); callee_tok = p.next(); p.expect('to'); parse_type(p); p.expect(')')
+                ins['castcall'] = True
             args = []
             p.expect('(')
             if not p.accept(')'):
@@ -1001,9 +1123,14 @@ class Emitter:
         elif op == 'ashr':
             ty = ins['ty']
             L.append('%s = %s;' % (R, self.mask(ty, '%s >> %s' % (self.sgn(ty, ins['a']), ins['b']))))
+        elif op in ('fadd', 'fsub', 'fmul', 'fdiv') and self.cur_lift and ins['ty'] == ('double',):
+            if op == 'fdiv': raise NotImplementedError("lift: fdiv in %s" % self.f.name)
+            L.append('%s = ld_%s(%s, %s);' % (R, op[1:], ins['a'], ins['b']))
         elif op in ('fadd', 'fsub', 'fmul', 'fdiv'):
             sym = {'fadd': '+', 'fsub': '-', 'fmul': '*', 'fdiv': '/'}[op]
             L.append('%s = %s %s %s;' % (R, ins['a'], sym, ins['b']))
+        elif op == 'fneg' and self.cur_lift and ins['ty'] == ('double',):
+            L.append('%s = ld_neg(%s);' % (R, ins['a']))
         elif op == 'fneg':
             L.append('%s = -%s;' % (R, ins['a']))
         elif op == 'icmp':
@@ -1021,6 +1148,13 @@ class Emitter:
                     a = self.sgn(ty, a); b = self.sgn(ty, b)
                 sym = {'eq': '==', 'ne': '!=', 'ult': '<', 'ule': '<=', 'ugt': '>', 'uge': '>=', 'slt': '<', 'sle': '<=', 'sgt': '>', 'sge': '>='}[pred]
                 L.append('%s = (u1)(%s %s %s);' % (R, a, sym, b))
+        elif op == 'fcmp' and self.cur_lift and ins['ty'] == ('double',):
+            pred = ins['pred']; a = ins['a']; b = ins['b']
+            base = {'eq': '==', 'gt': '>', 'ge': '>=', 'lt': '<', 'le': '<=', 'ne': '!='}
+            if pred in ('ord', 'true'): e = '1'
+            elif pred in ('uno', 'false'): e = '0'
+            else: e = '(ld_cmp(%s, %s) %s 0)' % (a, b, base[pred[1:]])
+            L.append('%s = (u1)(%s);' % (R, e))
         elif op == 'fcmp':
             pred = ins['pred']; a = ins['a']; b = ins['b']
             unord = '(isnan(%s) || isnan(%s))' % (a, b)
@@ -1035,8 +1169,10 @@ class Emitter:
                 e = '(%s || (%s %s %s))' % (unord, a, base[pred[1:]], b)
             L.append('%s = (u1)(%s);' % (R, e))
         elif op == 'load':
+            if self.cur_lift and ins['ty'] == ('double',): raise NotImplementedError("lift: load of double in %s" % self.f.name)
             L.append('%s = *%s;' % (R, ins['ptr']))
         elif op == 'store':
+            if self.cur_lift and ins['ty'] == ('double',): raise NotImplementedError("lift: store of double in %s" % self.f.name)
             L.append('*%s = %s;' % (ins['ptr'], ins['v']))
         elif op == 'getelementptr':
             L.append('%s = %s;' % (R, ins['expr']))
@@ -1059,6 +1195,11 @@ class Emitter:
             L.append('%s = (%s)%s;' % (R, self.ct(ins['tty']), ins['v']))
         elif op == 'sext':
             L.append('%s = %s;' % (R, self.mask(ins['tty'], '(s%d)%s' % (self.layout(ins['tty'])[0]*8, self.sgn(ins['fty'], ins['v'])))))
+        elif op in ('sitofp', 'uitofp') and self.cur_lift and ins['tty'] == ('double',):
+            src = self.sgn(ins['fty'], ins['v']) if op == 'sitofp' else ins['v']
+            L.append('%s = ld_from(%s);' % (R, src) if ins['fty'][1] <= 64 and op == 'sitofp' else '%s = ld_fromu(%s);' % (R, src))
+        elif op in ('fptosi', 'fptoui') and self.cur_lift and ins['fty'] == ('double',):
+            L.append('%s = %s;' % (R, self.mask(ins['tty'], '(s%d)ld_to_int(%s)' % (self.layout(ins['tty'])[0]*8, ins['v']))))
         elif op == 'sitofp':
             L.append('%s = (%s)%s;' % (R, self.ct(ins['tty']), self.sgn(ins['fty'], ins['v'])))
         elif op == 'uitofp':
@@ -1221,6 +1362,9 @@ class Emitter:
                 if base.startswith('llvm.memcpy'): return ['memcpy(%s, %s, (size_t)%s);' % (av[0], av[1], av[2])]
                 if base.startswith('llvm.memmove'): return ['memmove(%s, %s, (size_t)%s);' % (av[0], av[1], av[2])]
                 if base.startswith('llvm.memset'): return ['memset(%s, (int)%s, (size_t)%s);' % (av[0], av[1], av[2])]
+                if base == 'llvm.fabs.f64' and self.cur_lift: return ['%sld_abs(%s);' % (asg, av[0])]
+                if self.cur_lift and any(t == ('double',) for t, v in args) or (self.cur_lift and ins['rty'] == ('double',)):
+                    raise NotImplementedError("lift: intrinsic %s in %s" % (base, self.f.name))
                 if base == 'llvm.fabs.f64': return ['%sfabs(%s);' % (asg, av[0])]
                 if base == 'llvm.nearbyint.f64': return ['%snearbyint(%s);' % (asg, av[0])]
                 if base == 'llvm.rint.f64': return ['%srint(%s);' % (asg, av[0])]
@@ -1245,6 +1389,7 @@ class Emitter:
                     cmp = '<' if mm.group(2) == 'min' else '>'
                     return ['%s(%s %s %s) ? %s : %s;' % (asg, ca, cmp, cb, a, b)]
                 if base.startswith('llvm.is.constant'): return ['%s0;' % asg]
+                if base.startswith('llvm.expect.'): return ['%s%s;' % (asg, av[0])]
                 if base == 'llvm.trap': return ['__CPROVER_assert(0, "llvm.trap"); __CPROVER_assume(0);']
                 if base.startswith('llvm.stacksave'): return ['%s(u8*)0;' % asg]
                 if base.startswith('llvm.stackrestore'): return []
@@ -1281,7 +1426,20 @@ class Emitter:
             if nm == '__cxa_atexit':
                 return [(asg + '0;') if asg else ';']
             callee = self.gname(nm)
-            # cast args when declared types differ? rely on same types
+            if ins.get('castcall'):
+                ptys = None
+                if nm in self.m.funcs: ptys = [t for t, n_, i_ in self.m.funcs[nm].params]
+                elif nm in self.m.decls: ptys = list(self.m.decls[nm][1])
+                if ptys is not None and len(ptys) == len(args):
+                    av = ['((%s)%s)' % (self.ct(pt), v) if (pt != t and self.resolve(pt)[0] == 'ptr') else v for pt, (t, v) in zip(ptys, args)]
+            cl = self.is_lifted(nm)
+            has_d = any(t == ('double',) for t, v in args)
+            if cl != self.cur_lift and has_d:
+                raise NotImplementedError("lift boundary: double argument in call %s -> %s" % (self.f.name, nm))
+            if self.cur_lift and not cl and ins['rty'] == ('double',):
+                raise NotImplementedError("lift boundary: double result of non-lifted %s in %s" % (nm, self.f.name))
+            if cl and not self.cur_lift and ins['rty'] == ('double',) and asg:
+                return ['%sld_to_double(%s(%s));' % (asg, callee, ', '.join(av))]
             return ['%s%s(%s);' % (asg, callee, ', '.join(av))]
         else:
             # indirect
@@ -1313,6 +1471,27 @@ void vf_native_assert(int c, const char *m); void vf_native_assume(int c); void 
 #define VF_ASSERT(c, m) __CPROVER_assert(c, m)
 #define VF_REACH() ((void)0)
 #endif
+/* exact-integer shadow of a double (DESIGN 1.5): value v with a static-style bound g on its bit length, propagated by
+   interval rules (mul: g1+g2, add/sub: max+1). g <= 53 is asserted at every operation, which implies |v| < 2^53, hence the
+   IEEE-754 binary64 operation the shadow stands for is exact. The bound is deliberately computed from bounds, not from the
+   product bits, so that the solver never has to reason about the magnitude of a multiplier output. */
+typedef struct { s64 v; s32 g; s32 e; } LD;   /* value = v * 2^e ; e is always a translation-time constant (0 or the exponent of a dyadic constant) */
+static inline s32 ir2c_bits(u64 a) { s32 n = 0;
+  if (a >> 32) { n += 32; a >>= 32; } if (a >> 16) { n += 16; a >>= 16; } if (a >> 8) { n += 8; a >>= 8; }
+  if (a >> 4) { n += 4; a >>= 4; } if (a >> 2) { n += 2; a >>= 2; } if (a >> 1) { n += 1; a >>= 1; } return n + (s32)a; }
+#define LIFT_ASSERT(c) VF_ASSERT(c, "LIFT:double arithmetic not provably exact (bit-length bound exceeds 53)")
+static inline LD ld_from(s64 x) { LD r; r.v = x; r.g = ir2c_bits(x < 0 ? (u64)0 - (u64)x : (u64)x); r.e = 0; LIFT_ASSERT(r.g <= 53); return r; }
+static inline LD ld_fromu(u64 x) { LD r; r.v = (s64)x; r.g = ir2c_bits(x); r.e = 0; LIFT_ASSERT(r.g <= 53); return r; }
+/* bring a to exponent e <= a.e (exact: multiplies v by a power of two, bound grows accordingly) */
+static inline LD ld_align(LD a, s32 e) { LD r = a; if (a.e > e) { s32 d = a.e - e; LIFT_ASSERT(a.g + d <= 53); r.v = (s64)((u64)a.v << d); r.g = a.g + d; r.e = e; } return r; }
+static inline LD ld_add(LD a, LD b) { s32 e = a.e < b.e ? a.e : b.e; a = ld_align(a, e); b = ld_align(b, e); LD r; r.v = (s64)((u64)a.v + (u64)b.v); r.g = (a.g > b.g ? a.g : b.g) + 1; r.e = e; LIFT_ASSERT(r.g <= 53); return r; }
+static inline LD ld_sub(LD a, LD b) { s32 e = a.e < b.e ? a.e : b.e; a = ld_align(a, e); b = ld_align(b, e); LD r; r.v = (s64)((u64)a.v - (u64)b.v); r.g = (a.g > b.g ? a.g : b.g) + 1; r.e = e; LIFT_ASSERT(r.g <= 53); return r; }
+static inline LD ld_mul(LD a, LD b) { LD r; r.v = (s64)((u64)a.v * (u64)b.v); r.g = a.g + b.g; r.e = a.e + b.e; LIFT_ASSERT(r.g <= 53); return r; }
+static inline LD ld_neg(LD a) { LD r; r.v = (s64)((u64)0 - (u64)a.v); r.g = a.g; r.e = a.e; return r; }
+static inline LD ld_abs(LD a) { return a.v < 0 ? ld_neg(a) : a; }
+static inline int ld_cmp(LD a, LD b) { s32 e = a.e < b.e ? a.e : b.e; a = ld_align(a, e); b = ld_align(b, e); return (a.v > b.v) - (a.v < b.v); }
+static inline double ld_to_double(LD a) { LIFT_ASSERT(a.e == 0 || a.e == -1); return a.e == 0 ? (double)a.v : (double)a.v * 0.5; }
+static inline s64 ld_to_int(LD a) { LIFT_ASSERT(a.e == 0); return a.v; }
 static inline u64 ir2c_ctlz64(u64 x) { u64 n = 0; if (x == 0) return 64; if (!(x >> 32)) { n += 32; x <<= 32; } if (!(x >> 48)) { n += 16; x <<= 16; } if (!(x >> 56)) { n += 8; x <<= 8; } if (!(x >> 60)) { n += 4; x <<= 4; } if (!(x >> 62)) { n += 2; x <<= 2; } if (!(x >> 63)) { n += 1; } return n; }
 static inline u64 ir2c_cttz64(u64 x) { if (x == 0) return 64; return 63 - ir2c_ctlz64(x & (~x + 1)); }
 static inline void *ir2c_new(size_t n) { void *p = malloc(n ? n : 1); __CPROVER_assume(p != 0); return p; }
@@ -1323,6 +1502,7 @@ def main():
     opts = {'check_nsw': '--check-nsw' in sys.argv, 'tu': 'tu'}
     for a in sys.argv[3:]:
         if a.startswith('--tu='): opts['tu'] = a[5:]
+        if a.startswith('--lift='): opts.setdefault('lift', set()).update(x for x in a[7:].split(',') if x)
     m = parse_module(open(src).read())
     e = Emitter(m, opts)
     c = e.emit()
